@@ -1,6 +1,7 @@
 import JunoModel.C03.ProofsNode
 import JunoModel.C03.ProofsLegacy
 import JunoModel.C03.ProofsSys
+import JunoModel.C03.ProofsCasm
 /-!
 C03 — property theorems (statements only; helper lemmas are in `Proofs*.lean`).
 
@@ -268,6 +269,59 @@ theorem held_reader_stable (cfg : Cfg) (ops₁ ops₂ : List Op) (hwf : OpsWF (o
     rw [← absAt_of_common nl₁.chain nl₂.chain k hsame]
     exact linv_histRead nl₂.chain nl₂.st h2 k q hq
 
+/-- TORN READS, legacy backend (concurrent store during one query): with the re-scan of
+proposed-fixes/C03-legacy-history-read-rescan-after-head.diff a storage read of block `n` whose log
+scan saw the node after history `ops₁` and whose head read saw it after `ops₁ ++ ops₂` still
+returns block `n`'s value, provided `ops₂` leaves blocks `0..n` in place. Without the re-scan it
+does not: `legacy_torn_read_asFound_counterexample`. -/
+theorem legacy_torn_read_rescan (ops₁ ops₂ : List Op) (hwf : OpsWF (ops₁ ++ ops₂)) (n : Nat) (a : Addr) (k : Slot) :
+    let nl₁ := runL legacyBackend (Node.init legacyBackend) ops₁
+    let nl₂ := runL legacyBackend nl₁ ops₂
+    nl₂.chain.drop (nl₂.chain.length - 1 - n) = nl₁.chain.drop (nl₁.chain.length - 1 - n) →
+    LState.tornStorageValue true nl₁.st nl₂.st n a k = (absAt nl₁.chain n).stor a k := by
+  intro nl₁ nl₂ hsame
+  have hwf1 : OpsWF ops₁ := fun id d hm => hwf id d (List.mem_append.mpr (Or.inl hm))
+  have hwf2 : OpsWF ops₂ := fun id d hm => hwf id d (List.mem_append.mpr (Or.inr hm))
+  have h1 := runL_invariant legacyBackend LInv
+    (fun ch s s' d hI hd hu => linv_store ch s s' d hI hd hu)
+    (fun d rest s s' hI hr => linv_revert d rest s s' hI hr)
+    ops₁ (Node.init legacyBackend) linv_init hwf1
+  have h2 := runL_invariant legacyBackend LInv
+    (fun ch s s' d hI hd hu => linv_store ch s s' d hI hd hu)
+    (fun d rest s s' hI hr => linv_revert d rest s s' hI hr)
+    ops₂ nl₁ h1 hwf2
+  exact linv_tornStorage nl₁.chain nl₂.chain nl₁.st nl₂.st h1 h2 n hsame a k
+
+/-- COMPILED CLASS HASHES (any backend: the metadata is kept by the block store, not by the state):
+`CompiledClassHash` on the view of block `n` is the compiled class hash in force after block `n` —
+the declared one, the migrated one from the block of the migration on, not-found before the
+declaration — and on the head view the one of the head. Hypothesis on every stored block (`CasmStep`,
+`MigVal`): a Sierra class is declared once, migrations only under protocol ≥ 0.14.1 and not of a
+class declared by the same diff, and a migration carries the blake2s hash juno stored at
+declaration (juno switches to its stored hash, not to the one in the diff). -/
+theorem casm_read_correct {σ : Type} (be : Backend σ) (ops : List Op) (nd : Node σ)
+    (hrun : run be (Node.init be) ops = some nd)
+    (hok : OpsOK (fun ch d => CasmStep ch d ∧ MigVal ch d) ops []) (c : CHash) :
+    (∀ n, n < nd.blocks.length → nd.readCasm (.num n) c = some (casmRes (absAt nd.chain n) c)) ∧
+    (nd.blocks ≠ [] → nd.readCasm .head c = some (casmRes (absOf nd.chain) c)) := by
+  have hinv := run_minv be ops (Node.init be) nd minv_init hok hrun
+  constructor
+  · intro n hn
+    simp only [Node.readCasm, Node.resolve, hn, if_true, hinv.recs c]
+    have h := metaOf_at nd.chain hinv.ok c n
+    by_cases hmt : metaOf nd.chain c = none
+    · simp only [hmt] at h ⊢; exact congrArg some h
+    · obtain ⟨mt, hm⟩ := Option.ne_none_iff_exists'.mp hmt
+      simp only [hm] at h ⊢; exact congrArg some h
+  · intro hne
+    have hemp : nd.blocks.isEmpty = false := by cases h : nd.blocks <;> simp_all
+    simp only [Node.readCasm, Node.resolve, hemp, Bool.false_eq_true, if_false, hinv.recs c]
+    have h := metaOf_head nd.chain hinv.ok c
+    by_cases hmt : metaOf nd.chain c = none
+    · simp only [hmt] at h ⊢; exact congrArg some h
+    · obtain ⟨mt, hm⟩ := Option.ne_none_iff_exists'.mp hmt
+      simp only [hm] at h ⊢; exact congrArg some h
+
 /-- Views by hash (any backend): the view of a stored block hash is the view of that block's
 number; a hash the node does not hold (never stored, or reverted) has no view; a number above the
 head has no view. With unique block hashes the hash of block `k` resolves to `k`
@@ -340,6 +394,17 @@ theorem new_deploy_and_replace_asFound_counterexample :
       (fun nd => (nd.read legacyBackend (.num 1) (.classHash 0x66), nd.read legacyBackend .head (.classHash 0x66))) =
       some (some (.ok 0x12f), some (.ok 0x12f)) := by decide
 
+/-- DEFECT (legacy historical reader: log scan and head read are two reads of a live database):
+block 0 sets 0x104[2] = 1, block 1 sets it to 2; a read of block 0 whose log scan happens before
+block 1 is committed and whose head read happens after it answers 2. -/
+theorem legacy_torn_read_asFound_counterexample :
+    let ops₁ : List Op := [.store 1 (dStore [(0x104, [(2, 1)])] [(0x104, 0xc000)])]
+    let ops₂ : List Op := [.store 2 (dStore [(0x104, [(2, 2)])] [])]
+    let nl₁ := runL legacyBackend (Node.init legacyBackend) ops₁
+    let nl₂ := runL legacyBackend nl₁ ops₂
+    (LState.tornStorageValue false nl₁.st nl₂.st 0 0x104 2, LState.tornStorageValue true nl₁.st nl₂.st 0 0x104 2,
+      (absAt nl₁.chain 0).stor 0x104 2) = (2, 1, 1) := by decide
+
 /-! ### non-vacuity: the hypotheses are satisfiable by histories that exercise the encodings -/
 
 /-- deploy + write, overwrite + nonce, replace class, revert, write again: runs, is well-formed,
@@ -390,5 +455,32 @@ example : (run legacyBackend (Node.init legacyBackend) exampleHistory).map
        nd.read legacyBackend (.num 0) (.classHash 0x105),
        nd.read legacyBackend (.hash 3) (.nonce 0x104)])) =
     some (3, [some (.ok 5), some (.ok 6), some (.ok 0), some (.ok 0), some .notfound, none]) := by decide
+
+/-- block 0 declares Sierra class 0x51 under protocol < 0.14.1 (compiled hash 0xa1, blake2s hash
+0xb1); block 1 (≥ 0.14.1) migrates it and declares 0x52 with its blake2s hash; then a revert and a
+re-application -/
+def casmHistory : List Op :=
+  [.store 1 { Diff.empty with declared1 := [⟨0x51, 0xa1, 0xb1⟩] },
+   .store 2 { Diff.empty with v2 := true, migrated := [(0x51, 0xb1)], declared1 := [⟨0x52, 0xb2, 0xb2⟩] },
+   .revert,
+   .store 3 { Diff.empty with v2 := true, migrated := [(0x51, 0xb1)] }]
+
+example : OpsOK (fun ch d => CasmStep ch d ∧ MigVal ch d) casmHistory [] := by
+  simp only [casmHistory, OpsOK, List.tail_cons, and_true]
+  refine ⟨⟨⟨by decide, by decide, by decide, by decide, by decide⟩, by intro p hp; cases hp⟩,
+    ⟨⟨by decide, by decide, by decide, by decide, by decide⟩, ?_⟩,
+    ⟨⟨by decide, by decide, by decide, by decide, by decide⟩, ?_⟩⟩
+  all_goals
+    intro p hp mt hmt
+    simp only [List.mem_singleton] at hp
+    subst hp
+    simp [metaOf] at hmt
+    subst hmt
+    rfl
+
+example : (run legacyBackend (Node.init legacyBackend) casmHistory).map
+    (fun nd => [nd.readCasm (.num 0) 0x51, nd.readCasm (.num 1) 0x51, nd.readCasm .head 0x51,
+                nd.readCasm (.num 0) 0x52, nd.readCasm .head 0x52]) =
+    some [some (.ok 0xa1), some (.ok 0xb1), some (.ok 0xb1), some .notfound, some .notfound] := by decide
 
 end Juno.C03.Props
